@@ -145,6 +145,14 @@ TWINS = [
     ('trlog2-vinv-transposed', 'C03', 'base/transforms2d.py', 'v = np.array([[A, B], [-B, A]]) @ t / (A * A + B * B)', 'v = np.array([[A, -B], [B, A]]) @ t / (A * A + B * B)', 'R25', 'trlog2'),
     ('trlog2-vinv-undivided', 'C03', 'base/transforms2d.py', 'v = np.array([[A, B], [-B, A]]) @ t / (A * A + B * B)', 'v = np.array([[A, B], [-B, A]]) @ t', 'R25', 'trlog2'),
     ('trlog2-theta-unguarded', 'C03', 'base/transforms2d.py', '            if theta == 0:\n                v = t\n            else:\n                A = math.sin(theta) / theta\n                B = 2 * math.sin(theta / 2) ** 2 / theta\n                v = np.array([[A, B], [-B, A]]) @ t / (A * A + B * B)', '            A = math.sin(theta) / theta\n            B = 2 * math.sin(theta / 2) ** 2 / theta\n            v = np.array([[A, B], [-B, A]]) @ t / (A * A + B * B)', 'R25', 'trlog2'),
+    ('se2-ctor-wrong-none-test', 'C07', 'pose2d.py', '            elif y is not None and theta is not None:', '            elif x is not None and theta is not None:', 'R10m', 'SE2.__init__'),
+    ('mul-isinstance-swapped', 'C06', 'super_pose.py', 'elif isinstance(right, np.ndarray) and left.isSE and right.shape[0] == left.N and len(left) == right.shape[1]:', 'elif isinstance(np.ndarray, right) and left.isSE and right.shape[0] == left.N and len(left) == right.shape[1]:', 'R7', 'SMPose.__mul__'),
+    ('trnorm2-wrong-column', 'C14', 'base/transforms2d.py', '    y = base.unitvec(T[:2, 1])', '    y = base.unitvec(T[:2, 0])', 'R16', 'trnorm2'),
+    ('trnorm2-perp-sign', 'C14', 'base/transforms2d.py', '    x = np.r_[y[1], -y[0]]', '    x = np.r_[-y[1], y[0]]', 'R16', 'trnorm2'),
+    ('ab2m-block-slot', 'C03', 'base/transformsNd.py', '        T = np.zeros((3, 3))\n        T[:2, :2] = A', '        T = np.zeros((3, 3))\n        T[:1, :2] = A', 'R16', 'Ab2M'),
+    ('rt2tr-translation-row', 'C03', 'base/transformsNd.py', '        T = np.eye(4)\n        T[:3, :3] = R\n        T[:3, 3] = t', '        T = np.eye(4)\n        T[:3, :3] = R\n        T[3, :3] = t', 'R16', 'rt2tr'),
+    ('tr2rt-translation-slot', 'C03', 'base/transformsNd.py', '        t = T[:3, 3]', '        t = T[:3, 2]', 'R16', 'tr2rt'),
+    ('mul-seq-missing-transpose', 'C06', 'super_pose.py', 'return np.array([x.A @ y for x, y in zip(left, right.T)]).T', 'return np.array([x.A @ y for x, y in zip(left, right.T)])', 'R16', 'SMPose.__mul__'),
     ('cross-entry', 'C13', 'base/vectors.py', '        u[2] * v[0] - u[0] * v[2],', '        u[0] * v[2] - u[2] * v[0],', 'R16', 'cross'),
     ('tr2jac-notranspose', 'C13', 'base/transforms3d.py', '        return np.block([[R.T, Z], [Z, R.T]])', '        return np.block([[R, Z], [Z, R]])', 'R16', 'tr2jac'),
     # ---- C14
